@@ -25,7 +25,7 @@ static size_t subframes(const ezc3d::c3d& c) { size_t s = c.header().nbAnalogByF
 static std::string num(const char* p, size_t i) { std::string s(p); s.push_back(char('0' + i % 10)); return s; }
 
 // a frame that follows the current declarations, with deviations
-struct Dev { int dP, dC; bool rename, dup, nopoints, noanalogs; Dev() : dP(0), dC(0), rename(false), dup(false), nopoints(false), noanalogs(false) {} };
+struct Dev { int dP, dC; bool rename, dup, nopoints, noanalogs, renamefirst, swap; Dev() : dP(0), dC(0), rename(false), dup(false), nopoints(false), noanalogs(false), renamefirst(false), swap(false) {} };
 static Frame make_frame(const ezc3d::c3d& c, const Dev& d) {
   std::vector<std::string> pl = plabels(c), al = alabels(c);
   Frame fr; Points pts; Analogs ana;
@@ -34,6 +34,7 @@ static Frame make_frame(const ezc3d::c3d& c, const Dev& d) {
     Point p; p.name(i < (long)pl.size() ? pl[i] : num("xp", i));
     if (d.rename && i == nP - 1) { std::string s = sym_str("rn", 2); for (size_t k = 0; k < pl.size(); ++k) __vp_assume(s != pl[k]); p.name(s); }
     if (d.dup && i == nP - 1 && nP > 1) p.name(pl[0]);
+    if (d.renamefirst && i == 0) { std::string s2 = sym_str("rf", 2); for (size_t k = 0; k < pl.size(); ++k) __vp_assume(s2 != pl[k]); p.name(s2); }
     p.x(__vp_sym_f32("x")); p.y(__vp_sym_f32("y")); p.z(__vp_sym_f32("z")); p.residual(__vp_sym_f32("r"));
     pts.point(p);
   }
@@ -73,6 +74,7 @@ static int do_point_col(ezc3d::c3d& c, int dFrames, int names, bool empty) {   /
   if (names == 0) nm.push_back("newp");
   else if (names == 1) nm.push_back(pl.size() ? pl[0] : std::string("newp"));
   else if (names == 2) { nm.push_back("newp"); nm.push_back(pl.size() ? pl[0] : std::string("newq")); }
+  else if (names == 4) nm.push_back(pl.size() ? pl.back() : std::string("newp"));
   else { nm.push_back("newp"); nm.push_back("newq"); }
   for (long f = 0; f < n; ++f) {
     Frame fr; Points pts;
@@ -96,6 +98,7 @@ static int do_channel_col(ezc3d::c3d& c, int dFrames, int dSub, int names, bool 
   if (names == 0) nm.push_back("newa");
   else if (names == 1) nm.push_back(al.size() ? al[0] : std::string("newa"));
   else if (names == 2) { nm.push_back("newa"); nm.push_back(al.size() ? al[0] : std::string("newb")); }
+  else if (names == 4) nm.push_back(al.size() ? al.back() : std::string("newa"));
   else { nm.push_back("newa"); nm.push_back("newb"); }
   for (long f = 0; f < n; ++f) {
     Frame fr; Analogs ana;
@@ -138,7 +141,7 @@ static int do_lock(ezc3d::c3d& c, int variant) {
 static int do_declare(ezc3d::c3d& c, bool point, int variant) {   // 0 fresh, 1 duplicate, 2 trailing space
   std::vector<std::string> l = point ? plabels(c) : alabels(c);
   // a duplicate declaration is only specified when frames exist (it then goes through the column adder)
-  if (variant == 1 && c.data().nbFrames() == 0) variant = 0;
+  if (variant == 1 && c.data().nbFrames() == 0 && !__vp_cfg("dupdeclare")) variant = 0;
   std::string nm = variant == 1 && l.size() ? l[0] : variant == 2 ? std::string("sp ") : num(point ? "dp" : "da", l.size());
   bool exists = false; for (size_t i = 0; i < l.size(); ++i) if (l[i] == (variant == 2 ? std::string("sp") : nm)) exists = true;
   __vp_obs_u64("call.kind", point ? 6 : 7); __vp_obs_u64("arg.nameExists", exists);
@@ -146,7 +149,7 @@ static int do_declare(ezc3d::c3d& c, bool point, int variant) {   // 0 fresh, 1 
   return 0;
 }
 
-enum { NOPS = 47 };
+enum { NOPS = 54 };
 static int apply(ezc3d::c3d*& c, unsigned op) {
   Dev d;
   switch (op) {
@@ -196,6 +199,13 @@ static int apply(ezc3d::c3d*& c, unsigned op) {
     case 44: return do_point_col(*c, 0, 3, false);
     case 45: return do_channel_col(*c, 0, 0, 3, false);
     case 46: return do_rate(*c, "ANALOG", 300.f);
+    case 47: d.renamefirst = true; return do_frame(*c, d, -1);
+    case 48: d.dP = -1; return do_frame(*c, d, 1);
+    case 49: d.rename = true; return do_frame(*c, d, 0);
+    case 50: return do_point_col(*c, 1, 0, false);
+    case 51: return do_point_col(*c, 0, 4, false);
+    case 52: return do_channel_col(*c, 1, 0, 0, false);
+    case 53: return do_channel_col(*c, 0, 0, 4, false);
     case 43: {   // save and reload
       __vp_obs_u64("call.kind", 8);
       try { c->write("hist.c3d"); ezc3d::c3d* n = new ezc3d::c3d("hist.c3d"); delete c; c = n; } catch (...) { return classify(); }
